@@ -4,7 +4,7 @@ CONSTANTS
   Scenarios = {}
 SPECIFICATION TSpec
 CONSTRAINT Progress
-INVARIANTS TypeOK RightBlock OpenNeeded FinalNeverPartial ExitZeroComplete FailureLeavesNone LinkedT
+INVARIANTS TypeOK RightBlockT OpenNeeded FinalNeverPartial ExitZeroComplete FailureLeavesNone LinkedT
 PROPERTY DeliverNext
 POSTCONDITION TraceAccepted
 CHECK_DEADLOCK FALSE
